@@ -1461,9 +1461,12 @@ impl<'input, T: Input> Scanner<'input, T> {
         self.remove_simple_key()?;
         self.allow_simple_key();
 
-        self.end_implicit_mapping(self.mark);
-        // An entry of a sequence ends here, including a pair that was started with `?`.
+        // If we are directly inside a sequence, an entry of that sequence ends here: an implicit
+        // mapping or a pair that was started with `?`. A `,` between the entries of a flow
+        // mapping does not end the implicit mapping of an enclosing sequence
+        // (`[a: {b: c, d: e}]`).
         if let Some((_, false)) = self.flow_collections.last() {
+            self.end_implicit_mapping(self.mark);
             self.flow_mapping_started = false;
         }
 
